@@ -71,6 +71,13 @@ def main():
                     os.makedirs(os.path.dirname(os.path.join(wt, rel)), exist_ok=True)
                     shutil.copy(os.path.join(root, fn), os.path.join(wt, rel))
                     placed.append(rel)
+        if not placed and "cp " not in demo_cmd:
+            # the agent renamed the demo when copying it in place: put it next to the first touched source file
+            ddir = os.path.dirname([f for f in meta.get("files", []) if f.endswith(".go")][0])
+            for fn in os.listdir(demo_dir):
+                if fn.endswith(".go"):
+                    shutil.copy(os.path.join(demo_dir, fn), os.path.join(wt, ddir, "zz_seeded_" + fn))
+                    placed.append(os.path.join(ddir, "zz_seeded_" + fn))
         os.makedirs(os.path.join(wt, "_mutant"), exist_ok=True)
         shutil.copytree(demo_dir, os.path.join(wt, "_mutant", "demo"), dirs_exist_ok=True)
         rc1, out1 = sh(demo_cmd, wt, timeout=1200)
